@@ -32,6 +32,9 @@ def main():
     if pid == "C10":
         from . import c10
         return c10.run(rest)
+    if pid == "C11":
+        from . import c11
+        return c11.run(rest)
     if pid == "C12":
         from . import c12
         return c12.run(rest)
